@@ -273,15 +273,17 @@ package k8s
 //@     invariant none: forall k int :: {rulePorts[k]} (0 <= k && k <= rangeindex) ==>
 //@         !(exists q string :: isProto(q) && foldEq(q, protocol) && rulePortMatch(rulePorts[k], dst, q, atoiVal(port)))
 
+//@ pred plainPeer(peer Peer) = (dyntype(peer, *PodPeer) && unwrap(peer, *PodPeer) != nil && unwrap(peer, *PodPeer).Pod != nil && !unwrap(peer, *PodPeer).Pod.FakePod)
+//@     || (dyntype(peer, *IPBlockPeer) && unwrap(peer, *IPBlockPeer) != nil)
 //@ func isPeerRepresentative
-//@   requires realDst(peer)
+//@   requires plainPeer(peer)
 //@   ensures [C01] real: !res
 
 //@ func (*NetworkPolicy).ruleConnections
 //@   requires np != nil && np.NetworkPolicy != nil && realDst(dst) && validRPs(rulePorts)
 //@   modifies *
 //@   ensures [C01,C03,C05] wf: wfCS(res0) && fresh(res0) && freshSep(res0) && allKept()
-//@   ensures [C01,C03,C14] pts: res1 == nil ==> (forall q v1.Protocol, n int :: {iset(res0.AllowedProtocols[q].Ports)[n]}
+//@   ensures [C01,C03,C14] pts: res1 == nil ==> (forall q v1.Protocol, n int :: {iset(res0.AllowedProtocols[q].Ports)[n]} {portMatch(rulePorts, dst, q, n)}
 //@         pts(res0, q, n) == portMatch(rulePorts, dst, q, n))
 //@   ensures [C03] explicit: len(rulePorts) != 0 ==> !res0.AllowAll
 //@   ensures [C01] named: res1 == nil ==> (forall q v1.Protocol, s string :: {s in res0.AllowedProtocols[q].NamedPorts} !npts(res0, q, s))
@@ -316,10 +318,10 @@ package k8s
 // ---------------------------------------------------------------------------------------------
 
 //@ func (*NetworkPolicy).selectorsMatch
-//@   requires np != nil && np.NetworkPolicy != nil
+//@   requires np != nil && np.NetworkPolicy != nil && (isPeerRepresentative || ruleSelector != nil)
 //@   modifies *
-//@   ensures [C14,C01] real: (!isPeerRepresentative && err == nil) ==> (selectorsMatch == lsMatch(ruleSelector, peerLabels) && lsValid(ruleSelector))
-//@   ensures [C14,C01] invalid: (!isPeerRepresentative && !lsValid(ruleSelector)) ==> err != nil
+//@   ensures [C14,C01] real: (!isPeerRepresentative && err == nil) ==> (selectorsMatch == lsMatch(valof(ruleSelector), peerLabels) && lsValid(valof(ruleSelector)))
+//@   ensures [C14,C01] invalid: (!isPeerRepresentative && !lsValid(valof(ruleSelector))) ==> err != nil
 
 // ---------------------------------------------------------------------------------------------
 // Ingress: only TCP container ports of the workload are exposed (C10)
@@ -346,3 +348,90 @@ package k8s
 //@   requires forall q v1.Protocol :: {foldEq(q, protocol)} {foldEq(protocol, q)} pts(c, q, atoiVal(port)) == portMatch(rps, dst, q, atoiVal(port))
 //@   ensures agree: (c.AllowAll || (exists q v1.Protocol :: q in c.AllowedProtocols && foldEq(protocol, q) && iset(c.AllowedProtocols[q].Ports)[atoiVal(port)]))
 //@         == (exists q string :: isProto(q) && foldEq(q, protocol) && portMatch(rps, dst, q, atoiVal(port)))
+
+// ---------------------------------------------------------------------------------------------
+// Which pods a policy governs, and which peers a rule matches (C01, C14) - written from the property text
+// ---------------------------------------------------------------------------------------------
+
+//@ fun affects(np *NetworkPolicy, direction netv1.PolicyType) bool = if len(np.Spec.PolicyTypes) > 0
+//@     then (exists k int :: {np.Spec.PolicyTypes[k]} 0 <= k && k < len(np.Spec.PolicyTypes) && np.Spec.PolicyTypes[k] == direction)
+//@     else (direction == "Ingress" || len(np.Spec.Egress) > 0)
+
+//@ func (*NetworkPolicy).policyAffectsDirection
+//@   requires np != nil && np.NetworkPolicy != nil
+//@   ensures [C01,C14] def: res == affects(np, direction)
+//@   loop 1:
+//@     invariant none: forall k int :: {np.Spec.PolicyTypes[k]} (0 <= k && k <= rangeindex) ==> np.Spec.PolicyTypes[k] != direction
+
+// a policy governs a pod in a direction: same namespace, direction affected, pod selector matches (an empty selector matches all)
+//@ fun governs(np *NetworkPolicy, p *Pod, direction netv1.PolicyType) bool = p.Namespace == np.Namespace && affects(np, direction)
+//@     && !(p.FakePod && p.Name == "representative-pod")
+//@     && ((len(np.Spec.PodSelector.MatchLabels) == 0 && len(np.Spec.PodSelector.MatchExpressions) == 0) || lsMatch(np.Spec.PodSelector, p.Labels))
+
+//@ func (*NetworkPolicy).Selects
+//@   requires np != nil && np.NetworkPolicy != nil && p != nil
+//@   modifies *
+//@   ensures [C01,C14,C06] def: res1 == nil ==> res0 == governs(np, p, direction)
+
+// a real peer: a pod with its namespace object, or an IP block
+//@ pred realPeer(peer Peer) = (dyntype(peer, *PodPeer) && unwrap(peer, *PodPeer) != nil && unwrap(peer, *PodPeer).Pod != nil
+//@         && !unwrap(peer, *PodPeer).Pod.FakePod && unwrap(peer, *PodPeer).NamespaceObject != nil)
+//@     || (dyntype(peer, *IPBlockPeer) && unwrap(peer, *IPBlockPeer) != nil && unwrap(peer, *IPBlockPeer).IPBlock != nil)
+//@ fun peerPodK(peer Peer) *Pod = unwrap(peer, *PodPeer).Pod
+// the block of an ipBlock rule peer: its CIDR minus every except
+//@ fun inRuleBlock(b *netv1.IPBlock, a int) bool = cidrSet(b.CIDR)[a] && !(exists k int :: 0 <= k && k < len(b.Except) && cidrSet(b.Except[k])[a])
+// one rule peer matches the other end (C01): selector peers match pods only, ipBlock peers match addresses only
+//@ fun rulePeerMatch(np *NetworkPolicy, rp netv1.NetworkPolicyPeer, peer Peer) bool =
+//@     if rp.PodSelector != nil || rp.NamespaceSelector != nil
+//@     then (dyntype(peer, *PodPeer)
+//@           && (if rp.NamespaceSelector == nil then np.Namespace == peerPodK(peer).Namespace
+//@               else lsMatch(valof(rp.NamespaceSelector), unwrap(peer, *PodPeer).NamespaceObject.Labels))
+//@           && (rp.PodSelector == nil || lsMatch(valof(rp.PodSelector), peerPodK(peer).Labels)))
+//@     else (dyntype(peer, *IPBlockPeer) && rp.IPBlock != nil
+//@           && (forall a int :: {ipset(unwrap(peer, *IPBlockPeer).IPBlock)[a]} ipset(unwrap(peer, *IPBlockPeer).IPBlock)[a] ==> inRuleBlock(rp.IPBlock, a)))
+//@ fun peerMatch(np *NetworkPolicy, rps []netv1.NetworkPolicyPeer, peer Peer) bool = len(rps) == 0
+//@     || (exists k int :: {rps[k]} 0 <= k && k < len(rps) && rulePeerMatch(np, rps[k], peer))
+
+//@ func (*NetworkPolicy).ruleSelectsPeer
+//@   requires np != nil && np.NetworkPolicy != nil && realPeer(peer)
+//@   modifies *
+//@   ensures [C01,C03,C14] def: res1 == nil ==> res0 == peerMatch(np, rulePeers, peer)
+//@   loop 1:
+//@     invariant none: forall k int :: {rulePeers[k]} (0 <= k && k <= rangeindex) ==> !rulePeerMatch(np, rulePeers[k], peer)
+
+// ---------------------------------------------------------------------------------------------
+// What one policy allows between two peers in a direction: union over its rules that match the other end (C01, C14)
+// ---------------------------------------------------------------------------------------------
+
+//@ pred validNP(np *NetworkPolicy) = (forall k int :: {np.Spec.Ingress[k]} (0 <= k && k < len(np.Spec.Ingress)) ==> validRPs(np.Spec.Ingress[k].Ports))
+//@     && (forall k int :: {np.Spec.Egress[k]} (0 <= k && k < len(np.Spec.Egress)) ==> validRPs(np.Spec.Egress[k].Ports))
+//@ fun ingressRulePts(np *NetworkPolicy, k int, src Peer, dst Peer, q string, n int) bool =
+//@     isPP(q, n) && peerMatch(np, np.Spec.Ingress[k].From, src) && portMatch(np.Spec.Ingress[k].Ports, dst, q, n)
+//@ fun egressRulePts(np *NetworkPolicy, k int, dst Peer, q string, n int) bool =
+//@     isPP(q, n) && peerMatch(np, np.Spec.Egress[k].To, dst) && portMatch(np.Spec.Egress[k].Ports, dst, q, n)
+
+//@ func (*NetworkPolicy).GetIngressAllowedConns
+//@   hide peerMatch, portMatch
+
+//@   requires np != nil && np.NetworkPolicy != nil && realPeer(src) && realDst(dst) && validNP(np)
+//@   modifies *
+//@   ensures [C01,C14,C05] wf: wfCS(res0) && fresh(res0) && freshSep(res0) && allKept()
+//@   ensures [C01,C14] pts: res1 == nil ==> (forall q v1.Protocol, n int :: {iset(res0.AllowedProtocols[q].Ports)[n]}
+//@         pts(res0, q, n) == (exists k int :: {np.Spec.Ingress[k]} 0 <= k && k < len(np.Spec.Ingress) && ingressRulePts(np, k, src, dst, q, n)))
+//@   loop 1:
+//@     invariant wf: wfCS(res) && fresh(res) && freshSep(res) && allKept() && !res.AllowAll
+//@     invariant pts: forall q v1.Protocol, n int :: {iset(res.AllowedProtocols[q].Ports)[n]}
+//@         pts(res, q, n) == (exists k int :: {np.Spec.Ingress[k]} 0 <= k && k <= rangeindex && ingressRulePts(np, k, src, dst, q, n))
+
+//@ func (*NetworkPolicy).GetEgressAllowedConns
+//@   hide peerMatch, portMatch
+
+//@   requires np != nil && np.NetworkPolicy != nil && realDst(dst) && realPeer(dst) && validNP(np)
+//@   modifies *
+//@   ensures [C01,C14,C05] wf: wfCS(res0) && fresh(res0) && freshSep(res0) && allKept()
+//@   ensures [C01,C14] pts: res1 == nil ==> (forall q v1.Protocol, n int :: {iset(res0.AllowedProtocols[q].Ports)[n]}
+//@         pts(res0, q, n) == (exists k int :: {np.Spec.Egress[k]} 0 <= k && k < len(np.Spec.Egress) && egressRulePts(np, k, dst, q, n)))
+//@   loop 1:
+//@     invariant wf: wfCS(res) && fresh(res) && freshSep(res) && allKept() && !res.AllowAll
+//@     invariant pts: forall q v1.Protocol, n int :: {iset(res.AllowedProtocols[q].Ports)[n]}
+//@         pts(res, q, n) == (exists k int :: {np.Spec.Egress[k]} 0 <= k && k <= rangeindex && egressRulePts(np, k, dst, q, n))
